@@ -60,6 +60,7 @@ Proof.
     + destruct seen; inversion H; subst; reflexivity.
     + inversion H; subst; reflexivity.
     + cbn in H. destruct (notified s); inversion H; subst; reflexivity.
+    + destruct (all_visited (calls s)); inversion H; subst; reflexivity.
   - unfold noeff in H. destruct (visit_step s i) eqn:E; inversion H; subst. apply (visit_step_ctrl _ _ _ E).
   - unfold noeff in H. destruct (caller_step s i veto wr) eqn:E; inversion H; subst. apply (caller_step_ctrl _ _ _ _ _ E).
   - unfold noeff in H. destruct (reply_step s i) eqn:E; inversion H; subst. apply (reply_step_ctrl _ _ _ E).
@@ -121,6 +122,7 @@ Proof.
     + destruct seen; inversion H; subst; cbn; (destruct Hm as [Hm|[Hm|(_ & x0 & Hm)]]; [auto|auto|discriminate]).
     + inversion H; subst; cbn. destruct Hm as [Hm|[Hm|(_ & x0 & Hm)]]; [auto|auto|discriminate].
     + exfalso. destruct Hm as [Hm|[(Hm & _)|(_ & x0 & Hm)]]; try congruence.
+    + destruct (all_visited (calls s)); inversion H; subst; cbn. destruct Hm as [Hm|[Hm|(_ & x0 & Hm)]]; [auto|auto|discriminate].
   - unfold noeff in H. destruct (visit_step s i) eqn:E; inversion H; subst.
     eapply mbi_ctrl; [eapply visit_step_ctrl; eauto|exact Hm].
   - unfold noeff in H. destruct (caller_step s i veto wr) eqn:E; inversion H; subst.
